@@ -94,6 +94,17 @@ def cases(spec, ctx):
         alpha = rng.choice(["ACGT", "ACGT", "ACGT", "ACGTN", "ACGTRYKMSWN", "ACGTacgt"])
         yield {"kind": "rand", "blocks": blocks, "strand": strand, "frames": frames, "gseed": rng.randrange(1 << 30), "glen": glen,
                "alpha": alpha, "engineer": rng.choice(["none", "start", "stop", "both", "inframe-stop", "alt-start"]), "nwin": sc["NW"]}
+    # scale leg (own stream): long CDS (hundreds of codons, exons of several hundred bases, 6..14 exons)
+    srng = __import__("random").Random(f"C05-scale:{ctx.seed}:{i}")
+    for k in range(sc["NR"] // (60 * n) + 1):
+        glen = srng.choice([1500, 4000])
+        nb = srng.choice([1, 3, 6, 14])
+        blocks = GG.rand_blocks(srng, 0, glen, nb, min_len=1, max_len=srng.choice([40, 200, 600]), adjacent_prob=0.2)
+        strand = srng.choice("+-")
+        fs = 0 if srng.random() < 0.6 else 1
+        frames = GG.rand_frames(srng, blocks, strand, None, fs)
+        yield {"kind": "rand", "blocks": blocks, "strand": strand, "frames": frames, "gseed": srng.randrange(1 << 30), "glen": glen,
+               "alpha": srng.choice(["ACGT", "ACGT", "ACGTN"]), "engineer": srng.choice(["none", "start", "both", "inframe-stop"]), "nwin": 3}
 
 
 def _genome(case, blocks, strand, frames):
